@@ -7,6 +7,9 @@ Inputs   small Boolean conformant problems from the G2 grammar (Boolean-only mas
                        with duplicated / reordered states and with added states the compiler drops as dominated
            contingent  by a ContingentProblem's oneof / or / unknown constraints (the state set is then DEFINED
                        by spec/Belief.tla!ConsStates from the constraints read off the real object).
+         plus a `chain` stratum (gen_chain_problem): the goal at the end of a dependency chain of 2-3 conditional
+         effects with seeded polarities at every junction (transitive / complement steps of the relevance relation),
+         possible initial states that differ in ONE fluent (mostly the chain's source), both orders of the states.
 Bind     the real Ks0Compiler.compile; the compiled problem K projected with upj.project; the real
          plan_back_conversion tabulated on every ground action of K (and on sampled multi-action plans); the
          initial states the compiler kept as tags read off K's initial state.
